@@ -433,6 +433,14 @@ class Gen:
                 self.array_op()
                 if r.random() < 0.08:
                     self.new(self.target())
+                if r.random() < 0.02:
+                    # the other device, re-using the slot objects (F65)
+                    self.emit("swapdev")
+                    self.omp = not self.omp
+                    ks = sorted(self.len)
+                    self.len, self.grp, self.vals, self.tiled = {}, {}, {}, {}
+                    for k in ks[:2]:
+                        self.new(k)
         elif kind == "range":
             if r.random() < 0.5:
                 self.new(r.randint(0, 7))
@@ -484,6 +492,8 @@ CORPUS = [
     ["dev S", "new 0 10 1 1 1 1 1 1 1 1 1 1", "reduce 0 0 0 0", "reduce 0 6 0 0"],
     # F64 (mapTo with a 3-argument function into a shorter array)
     ["dev S", "new 1 2 9 9", "new 2 6 1 2 3 4 5 6", "mapto 2 1 2 1 0", "get 1"],
+    # F65 (an array of another device assigned over a used array keeps the old return buffer)
+    ["dev O", "new 0 3 1 2 3", "every 0 0 0", "reduce 0 0 0 0", "swapdev", "new 0 3 1 2 3", "every 0 0 0", "reduce 0 0 0 0", "find 0 3 1"],
     # plain regressions
     ["dev O", "new 0 5 3 1 4 1 5", "tile 0 1024 1", "map 0 1 2 2 1", "rev 1 2", "concat 1 2 3", "slice 3 4 2 5", "fill 4 7", "get 3"],
     ["dev S", "loop n:3 r:2:11:3 | n:2", "loop n:10:t4", "loop n:5:t2 r:0:3:1:t8"],
